@@ -42,6 +42,20 @@ def viols_to_ctx(ctx, viols, trace_path, prefix, key=None):
                           "event #%d: %s" % (v["l"], json.dumps(e)[:700]), e)
 
 
+def session_histories(ctx, pid):
+    """Histories of live constraint objects judged against the spec's own state (Trace_Session)."""
+    opwv(ctx, ["record", "session", ctx.path("session.trace")])
+    viols, done = trace_validate(ctx, "Trace_Session", ctx.path("session.trace"))
+    ev = read_ndjson(ctx.path("session.trace"))
+    for v in viols:
+        e = ev[v["l"] - 1]
+        for clause in v["clause"]:
+            if clause.startswith(pid + ":") or clause.startswith("harness:"):
+                ctx.violation(clause, "history event #%d %s" % (v["l"], json.dumps(e)[:500]), {"event": e, "line": v["l"]})
+    ctx.evaluations += len(ev)
+    ctx.extra["history_events"] = len(ev)
+
+
 # ----------------------------------------------------------------------------- C07
 @check("C07")
 def c07(ctx):
@@ -72,6 +86,7 @@ def c07(ctx):
     ctx.evaluations += len(ev)
     ctx.sample(ev[0])
     ctx.sample(ev[2])
+    session_histories(ctx, "C07")
     ctx.exhaustive = True
     return finish(ctx, rule="every (from,to) on a %d-degree lattice in +-4pi (%d pairs) x every lattice angle and "
                   "the points 1e-9 beside it x 3 constructors, expected verdicts computed by TLC (Gen_Limits); "
@@ -101,6 +116,7 @@ def c18(ctx):
     viols_to_ctx(ctx, viols, ctx.path("samples.trace"), "C18", key=key)
     ev = read_ndjson(ctx.path("samples.trace"))
     ctx.evaluations += len(ev)
+    session_histories(ctx, "C18")
     for e in ev:
         ctx.nontrivial.add((tuple(e["from"]), tuple(e["to"])))
     ctx.sample(ev[0])
